@@ -290,7 +290,7 @@ int Session::on_tx_hook(int hook, htp_tx_t *tx) {
         m.req_complete++;
         if (o_.monitors) {
             if (tx->request_entity_len != m.reqbody && !sticky_[0] && connp_->in_status != HTP_STREAM_ERROR) viol(std::string("C06:request_entity_len_mismatch@") + htp_connp_in_state_as_string(connp_));
-            if (htp_tx_req_has_body(tx) && !m.req_eob) viol(std::string("C06:request_no_end_of_body_marker@") + htp_connp_in_state_as_string(connp_) + tsuffix(m, 1u << 8));
+            if (htp_tx_req_has_body(tx) && !m.req_eob && !m.req_body_nonok) viol(std::string("C06:request_no_end_of_body_marker@") + htp_connp_in_state_as_string(connp_) + tsuffix(m, 1u << 8));
             if (tx->request_content_encoding <= HTP_COMPRESSION_NONE && tx->request_message_len < tx->request_entity_len && !sticky_[0] && connp_->in_status != HTP_STREAM_ERROR) viol(std::string("C06:request_message_len_below_entity_len@") + htp_connp_in_state_as_string(connp_));
         }
     } else if (hook == H_RES_COMPLETE) {
@@ -298,7 +298,7 @@ int Session::on_tx_hook(int hook, htp_tx_t *tx) {
         m.res_complete++;
         if (o_.monitors) {
             if (tx->response_entity_len != m.resbody && !sticky_[1] && connp_->out_status != HTP_STREAM_ERROR) viol(std::string("C06:response_entity_len_mismatch@") + htp_connp_out_state_as_string(connp_));
-            if ((tx->response_transfer_coding == HTP_CODING_IDENTITY || tx->response_transfer_coding == HTP_CODING_CHUNKED) && !m.res_eob) viol(std::string("C06:response_no_end_of_body_marker@") + htp_connp_out_state_as_string(connp_) + tsuffix(m, 1u << 8));
+            if ((tx->response_transfer_coding == HTP_CODING_IDENTITY || tx->response_transfer_coding == HTP_CODING_CHUNKED) && !m.res_eob && !m.res_body_nonok) viol(std::string("C06:response_no_end_of_body_marker@") + htp_connp_out_state_as_string(connp_) + tsuffix(m, 1u << 8));
             if (tx->response_content_encoding_processing <= HTP_COMPRESSION_NONE && tx->response_message_len < tx->response_entity_len && !sticky_[1] && connp_->out_status != HTP_STREAM_ERROR) viol(std::string("C06:response_message_len_below_entity_len@") + htp_connp_out_state_as_string(connp_));
         }
     } else if (hook == H_TX_COMPLETE) {
@@ -340,6 +340,7 @@ int Session::on_data_hook(int hook, htp_tx_data_t *d) {
         if (o_.monitors && m.tx_complete) viol(std::string("C05:callback_after_transaction_complete:") + hook_name(hook) + "@" + htp_connp_in_state_as_string(connp_) + "/" + htp_connp_out_state_as_string(connp_));
     }
     int rc = plan_rc(hook);
+    if (rc != HTP_OK) { if (hook == H_REQ_BODY || hook == H_TXREQ_BODY) m.req_body_nonok = true; if (hook == H_RES_BODY || hook == H_TXRES_BODY) m.res_body_nonok = true; }
     record(hook, tx, d->data, d->len, true, d->is_last, rc);
     return rc;
 }
